@@ -11,7 +11,7 @@ ID = "C01"
 LEVEL = "exploration"
 RULE = ("every rule of the families F1 (one item: 6 mnemonic names x every operand-name list of length 0..K over 9 "
         "names incl. an int), F2 (all ordered pairs over a 14-item pool), F3 (all triples over a 6-item pool), F4 "
-        "(<hex>h-shaped and int operand names) x the 4 full-match flag settings x EVERY listing of length 0..L over an "
+        "(<hex>h-shaped and int operand names), F5 (mnemonics ending in segment-register / prefix letters), F6 (names differing from the listing only in letter case) x the 4 full-match flag settings x EVERY listing of length 0..L over an "
         "8-instruction near-miss alphabet (swapped operands, substring/extension mnemonics and operands, 0-3 operands, "
         "an address spelling a mnemonic); real YAML file -> real compiler, real objdump-style text -> real parser -> "
         "real regex search; oracle = regex-free reference matcher on the instruction list. Each (rule,config,listing) "
@@ -51,6 +51,11 @@ VOC_RULES = [[n] for n in ("movss", "mov", "addss", "add", "ss", "lss", "l", "cv
             [[{"movss": ["xmm1", "xmm0"]}], [{"mov": ["xmm1"]}], [{"cvtsi2ss": ["eax", "xmm1"]}], [{"lss": ["rax", "ebx"]}], ["movss", "addss"], ["mov", "add"]]
 
 
+# names differing from the listing only in letter case: matching is case sensitive (objdump prints lower case)
+CASE_RULES = [["MOV"], ["Mov"], ["PUSH"], ["Ret"], [{"mov": ["%RAX"]}], [{"mov": ["RAX", "rbx"]}], [{"mov": ["rax", "RBX"]}], [{"MOV": ["rax"]}],
+              [{"mov": ["0X1"]}], [{"push": ["%R8"]}], ["mov", "PUSH"], ["MOV", "push"], [{"mov": ["rax"]}, "RET"]]
+
+
 def f1_rules(k):
     for mn in e1.MN_NAMES:
         for n in range(0, k + 1):
@@ -65,6 +70,7 @@ def all_rules(tier):
     rules += [("F3", [a, b, c]) for a in SMALL_POOL for b in SMALL_POOL for c in SMALL_POOL]
     rules += [("F4", r) for r in HEXH_RULES]
     rules += [("F5", r) for r in VOC_RULES]
+    rules += [("F6", r) for r in CASE_RULES]
     return rules
 
 
